@@ -1322,14 +1322,21 @@ def gen_mission_case(R, maxops=14):
     def wp():
         return (float(R.randint(-8, 8)), float(R.randint(-8, 8)), float(R.randint(0, 4))) if R.random() < 0.7 else \
             (R.uniform(-8, 8), R.uniform(-8, 8), R.uniform(0, 4))
-    missions = [[wp() for _ in range(n)]]
+    def mission(k):
+        m = [wp() for _ in range(k)]
+        if R.random() < 0.35:
+            # a waypoint repeated back to back (hover / turn on the spot): the mission is the list as given
+            i = R.randrange(len(m))
+            m.insert(i, m[i])
+        return m
+    missions = [mission(n)]
     ops = []
     cur_m = None
     for _ in range(R.randint(2, maxops)):
         x = R.random()
         if x < 0.15 or (cur_m is None and x < 0.5):
             if R.random() < 0.3:
-                missions.append([wp() for _ in range(R.choice([1, 2, 3]))])
+                missions.append(mission(R.choice([1, 2, 3])))
             cur_m = R.choice(missions)
             ops.append(("start", list(cur_m)))
         elif x < 0.22:
